@@ -185,6 +185,7 @@ class Builder:
         self.uid = 0
         self.each = 0
         self.inlined: List[str] = []
+        self._textvars: Dict[str, list] = {}
 
     # -- helpers ---------------------------------------------------------------------------------------------------
     def _helper(self, call: ast.Call):
@@ -232,10 +233,14 @@ class Builder:
         if buf is None:
             # no single result buffer: the function returns a text *expression* (concatenation, join over a
             # comprehension, conditional expressions, pieces computed into locals first)
+            saved = self._textvars
+            self._textvars = {}
             try:
                 seq = self._ret_block(f, list(f.node.body), env, buffers, depth)
             except _NotText:
                 return None, ''
+            finally:
+                self._textvars = saved
             return fold(seq), 'joined'
         seq = fold(self._block(f, f.node.body, buf, buffers, env, depth))
         return seq, kind
@@ -255,6 +260,27 @@ class Builder:
                 test = simplify_test(self._sub(st.test, env))
                 body_returns = any(isinstance(x, ast.Return) for s_ in st.body for x in ast.walk(s_))
                 else_returns = any(isinstance(x, ast.Return) for s_ in st.orelse for x in ast.walk(s_))
+                if not body_returns and not else_returns:
+                    # a piece of text chosen by an if statement: `if c: piece = A` / `else: piece = B`
+                    def single(block):
+                        d = {}
+                        for s_ in block:
+                            if isinstance(s_, ast.Assign) and len(s_.targets) == 1 and isinstance(s_.targets[0], ast.Name):
+                                d[s_.targets[0].id] = s_.value
+                            elif not isinstance(s_, (ast.Pass, ast.Expr)):
+                                return None
+                        return d
+                    a_, b_ = single(st.body), single(st.orelse)
+                    if a_ is not None and b_ is not None:
+                        for nm in set(a_) | set(b_):
+                            if nm in buffers:
+                                continue
+                            va = self._text_expr(f, a_[nm], st, dict(env), buffers, depth) if nm in a_ else \
+                                self._text_expr(f, ast.Name(id=nm, ctx=ast.Load()), st, dict(env), buffers, depth)
+                            vb = self._text_expr(f, b_[nm], st, dict(env), buffers, depth) if nm in b_ else \
+                                self._text_expr(f, ast.Name(id=nm, ctx=ast.Load()), st, dict(env), buffers, depth)
+                            self._textvars[nm] = [Guard(test, va, vb, f, st)]
+                            env.pop(nm, None)
                 if body_returns or else_returns:
                     rest = list(stmts[k + 1:])
                     b = self._ret_block(f, list(st.body) + ([] if _ends_block(st.body) else rest), dict(env), buffers, depth)
@@ -269,6 +295,8 @@ class Builder:
 
     def _text_expr(self, f, e, node, env, buffers, depth) -> list:
         """emission nodes of an expression whose value is a piece of text"""
+        if isinstance(e, ast.Name) and e.id in self._textvars and e.id not in env:
+            return copy.deepcopy(self._textvars[e.id])
         e = self._sub(e, env)
         if isinstance(e, ast.Constant) and isinstance(e.value, str):
             return [Emit(e, f, node)] if e.value != '' else []
